@@ -225,6 +225,7 @@ type vfSink struct{ *Sink }
 type vfTracked struct {
 	s         *vfStream
 	from      uint64
+	start     uint64 // tick at which the first chunk was accepted
 	next      uint64
 	tick      uint64
 	valid     bool // every accepted chunk so far is what the sender produced
@@ -277,6 +278,7 @@ const (
 )
 
 type vfVerdict struct {
+	longSteady bool
 	expect   int
 	finalize bool
 	zombie   bool // an in-order chunk of a stream whose key saw a rejected corrupt first chunk
@@ -301,7 +303,7 @@ func (m *vfModel) step(d vfDelivery) vfVerdict {
 			// dropping the old stream) or accepted and doomed; resolved by the result
 			return vfVerdict{expect: vfExpectAny, tr: tr, note: "corrupt first chunk"}
 		}
-		ntr := &vfTracked{s: d.s, from: d.chunk.From, next: 1, tick: m.tick, valid: true, accepted: 1}
+		ntr := &vfTracked{s: d.s, from: d.chunk.From, next: 1, tick: m.tick, start: m.tick, valid: true, accepted: 1}
 		m.tracked[key] = ntr
 		if d.foreign {
 			ntr.valid = false
@@ -377,6 +379,11 @@ func (m *vfModel) last(key string, tr *vfTracked) vfVerdict {
 	m.order = append(m.order, key)
 	v.expect = vfExpectTrue
 	v.finalize = true
+	// a stream that took at least timeout+gc-interval ticks in total although no
+	// gap between two of its chunks reached the timeout (otherwise the collector
+	// would have dropped it): at least one collector run saw it older than the
+	// timeout while it was still in flight
+	v.longSteady = tr.accepted >= 2 && m.tick-tr.start >= m.timeout+m.gcTick
 	return v
 }
 
@@ -461,7 +468,7 @@ func vfGenMembership(t *rapid.T, lbl string) pb.Membership {
 func vfGenCase(t *rapid.T) vfCase {
 	c := vfCase{}
 	c.gcTick = rapid.Uint64Range(1, 4).Draw(t, "gctick")
-	c.timeout = rapid.Uint64Range(1, 6).Draw(t, "timeout")
+	c.timeout = rapid.SampledFrom([]uint64{1, 2, 2, 3, 3, 4, 5, 6}).Draw(t, "timeout")
 	big := rapid.IntRange(0, 9).Draw(t, "bigcase") == 0
 	if big {
 		c.chunkSize = rapid.SampledFrom([]uint64{1 << 20, 2 << 20, 2<<20 + 4, 3 << 19}).Draw(t, "chunksize")
@@ -709,7 +716,7 @@ func (r *vfRun) deliver(d vfDelivery) {
 	if d.id == 0 && d.corrupt != "" && !d.wrongDid && !d.wrongBin {
 		key := d.s.key()
 		if ok {
-			ntr := &vfTracked{s: d.s, from: d.chunk.From, next: 1, tick: r.model.tick, valid: false, badMain: true, accepted: 1}
+			ntr := &vfTracked{s: d.s, from: d.chunk.From, next: 1, tick: r.model.tick, start: r.model.tick, valid: false, badMain: true, accepted: 1}
 			r.model.tracked[key] = ntr
 			if d.chunk.IsLastChunk() {
 				delete(r.model.tracked, key)
@@ -778,6 +785,15 @@ func (r *vfRun) deliver(d vfDelivery) {
 	}
 	if v.finalize {
 		r.finished[d.s.key()] = true
+		if v.longSteady {
+			r.label("stream-longer-than-timeout-every-gap-below-it:finalized")
+			r.st.Count("long-steady-streams-finalized", 1)
+			if !r.labels["op:steady"] && !r.labels["slow-retransmission"] {
+				// reachable with the plain tick operation alone (the only source before
+				// the steady operation and the slow retransmission existed)
+				r.label("stream-longer-than-timeout-every-gap-below-it:by-plain-tick-ops-only")
+			}
+		}
 	}
 }
 
@@ -803,7 +819,7 @@ func (r *vfRun) op(i int) {
 	lbl := fmt.Sprintf("op%d-", i)
 	kind := rapid.SampledFrom([]string{"deliver", "deliver", "deliver", "deliver", "deliver", "deliver", "finish", "finish",
 		"drop", "swap", "dup", "corrupt", "corrupt", "corrupt-then-finish", "corrupt-then-finish", "corrupt-first", "restart", "wrongdid", "wrongbin", "foreign", "markremoved",
-		"tick", "tick", "rename"}).Draw(t, lbl+"kind")
+		"tick", "tick", "steady", "steady", "rename"}).Draw(t, lbl+"kind")
 	s := r.c.streams[rapid.IntRange(0, len(r.c.streams)-1).Draw(t, lbl+"s")]
 	cur := r.cursor[s.n]
 	left := len(s.chunks) - cur
@@ -942,6 +958,20 @@ func (r *vfRun) op(i int) {
 	case "tick":
 		r.tick(rapid.IntRange(1, int(r.c.timeout+r.c.gcTick)).Draw(t, lbl+"n"))
 		r.label("op:tick")
+	case "steady":
+		// a slow but healthy sender: the rest of the stream with a pause shorter
+		// than the timeout before every chunk
+		if left > 0 && r.c.timeout >= 2 {
+			r.label("op:steady")
+			for j := cur; j < len(s.chunks) && !r.died; j++ {
+				k := rapid.SampledFrom([]int{int(r.c.timeout) - 1, int(r.c.timeout) - 1, 1, 0}).Draw(t, lbl+"pause")
+				if k > 0 {
+					r.tick(k)
+				}
+				r.deliver(r.pristine(s, j))
+			}
+			r.cursor[s.n] = len(s.chunks)
+		}
 	case "rename":
 		// hostile directory components in the file name, same base name
 		if left > 0 {
@@ -1154,7 +1184,17 @@ func vfC15Prop(st *vfhelp.Stats) func(t *rapid.T) {
 				}
 			}
 			order := rapid.Permutation(c.streams).Draw(t, "drainorder")
+			// the retransmission is slow in half of the cases: a pause shorter than the
+			// timeout before every round (every live stream gets a chunk per round)
+			pause := 0
+			if c.timeout >= 2 && rapid.Bool().Draw(t, "slowdrain") {
+				pause = rapid.IntRange(1, int(c.timeout)-1).Draw(t, "drainpause")
+				r.label("slow-retransmission")
+			}
 			for j := 0; j < maxLen && !r.died; j++ {
+				if pause > 0 && j > 0 {
+					r.tick(pause)
+				}
 				for _, s := range order {
 					if j < len(s.chunks) {
 						r.deliver(r.pristine(s, j))
@@ -1232,8 +1272,8 @@ func vfC15Prop(st *vfhelp.Stats) func(t *rapid.T) {
 func TestVF_C15_Transfer(t *testing.T) {
 	st := vfhelp.NewStats("TestVF_C15_Transfer",
 		"1-3 snapshots (file based with 0-3 external files / streamed by rsm.ChunkWriter / witness; keys related: same key other sender, other index, other replica, other shard) split by the real sender code with a generated snapshotChunkSize; "+
-			"0-30 generated delivery operations (deliver, finish, drop, swap, duplicate, corrupt data, corrupt first chunk, restart, wrong deployment id / bin version, foreign sender, mark replica removed, ticks, hostile directory components) "+
-			"followed by a clean interleaved retransmission and timeout+gc ticks, against a reference receiver; non-trivial = a stream of >= 3 chunks and a perturbation hitting a chunk other than the first")
+			"0-30 generated delivery operations (deliver, finish, drop, swap, duplicate, corrupt data, corrupt first chunk, restart, wrong deployment id / bin version, foreign sender, mark replica removed, ticks, steady, hostile directory components) "+
+			"(steady = the rest of a stream with a pause shorter than the timeout before every chunk) followed by a clean interleaved retransmission (slow in half of the cases: a pause shorter than the timeout before every round) and timeout+gc ticks, against a reference receiver; non-trivial = a stream of >= 3 chunks and a perturbation hitting a chunk other than the first")
 	defer st.Flush()
 	rapid.Check(t, vfC15Prop(st))
 }
